@@ -24,7 +24,7 @@ ASSUMPTIONS = ["stdout of the commands is UTF-8 with strict error handling (typi
 
 
 def examples(tier):
-    return 6000 if tier == "quick" else 150000
+    return 6000 if tier == "quick" else 80000
 
 
 @st.composite
